@@ -14,6 +14,7 @@ import (
 func main() {
 	ev.GuardFor("C13")
 	r := ev.Start("C13")
+	defer r.FinishOnPanic()
 	e := &enum.E{R: r}
 	maxN := ev.Pick(r, 14, 40)
 	ns := []int{}
